@@ -73,3 +73,13 @@ impl Default for VerifCache {
         Self::new()
     }
 }
+
+/// The cache's write lock, held until this value is dropped (so that a check can make a
+/// look-up wait for the lock while the clock moves on).
+pub struct VerifWriteLock(#[allow(dead_code)] tokio::sync::OwnedRwLockWriteGuard<Cache>);
+
+impl VerifCache {
+    pub async fn lock_exclusive(&self) -> VerifWriteLock {
+        VerifWriteLock(self.0.cache.clone().write_owned().await)
+    }
+}
